@@ -48,6 +48,9 @@ func allPairs() [][2]string {
 	out = append(out, [2]string{"dutydb", "SyncContributions@1"})
 	for _, k := range append(signedKinds(), legacySigned()...) {
 		out = append(out, [2]string{"aggsigdb1", k.name}, [2]string{"aggsigdb2", k.name})
+		// "+w": two readers are already blocked on the key when it is stored; their answers are the
+		// first two Await results of the episode
+		out = append(out, [2]string{"aggsigdb1", k.name + "+w"}, [2]string{"aggsigdb2", k.name + "+w"})
 	}
 	for _, k := range signedKinds() {
 		out = append(out, [2]string{"parsigdb", k.name}, [2]string{"sigagg", k.name})
@@ -545,16 +548,19 @@ type aggsigdbEnv struct {
 	pk     core.PubKey
 	duty   core.Duty
 	last   core.SignedData
+	waiters bool  // variant "+w": two readers block on the key before the first Store
+	pre     []any // their answers, handed out by the first Await passes
 }
 
 func newAggsigdbEnv(v2 bool) func(string) env {
 	return func(variant string) env {
-		k, ok := findSigned(variant)
+		waiters := strings.HasSuffix(variant, "+w")
+		k, ok := findSigned(strings.TrimSuffix(variant, "+w"))
 		if !ok {
 			return nil
 		}
 		c, cancel := context.WithCancel(context.Background())
-		e := &aggsigdbEnv{kind: k, cancel: cancel, pk: corePubKey(9), duty: core.Duty{Slot: 77, Type: k.duty}}
+		e := &aggsigdbEnv{kind: k, cancel: cancel, pk: corePubKey(9), duty: core.Duty{Slot: 77, Type: k.duty}, waiters: waiters}
 		if v2 {
 			e.v2 = aggsigdb.NewMemDBV2(newStubDeadliner())
 			e.db = e.v2
@@ -620,8 +626,34 @@ func (e *aggsigdbEnv) pass(x *ctx, port string, src *holder, dst int) (roots []a
 			return nil, false, false, false
 		}
 		ok = guard(x, port, func() {
+			var res []chan any
+			if e.waiters && e.last == nil {
+				sub := e.subcomm(set[e.pk])
+				for i := 0; i < 2; i++ {
+					ch := make(chan any, 1)
+					res = append(res, ch)
+					go func() {
+						wc, wcancel := context.WithTimeout(context.Background(), 20*time.Second)
+						defer wcancel()
+						v, err := e.db.Await(wc, e.duty, e.pk, sub)
+						if err != nil {
+							ch <- err
+							return
+						}
+						ch <- v
+					}()
+				}
+				time.Sleep(30 * time.Millisecond) // let both readers block (if they are late they are answered directly: harmless)
+			}
 			if err := e.db.Store(c, e.duty, set); err != nil {
 				panic(err)
+			}
+			for _, ch := range res {
+				v := <-ch
+				if err, isErr := v.(error); isErr {
+					panic(err)
+				}
+				e.pre = append(e.pre, v)
 			}
 			if e.last == nil {
 				e.last = deepCopy(newCopier(), set[e.pk]).(core.SignedData)
@@ -634,6 +666,10 @@ func (e *aggsigdbEnv) pass(x *ctx, port string, src *holder, dst int) (roots []a
 			return nil, false, false, false
 		}
 		var out any
+		if len(e.pre) > 0 {
+			out, e.pre = e.pre[0], e.pre[1:]
+			return []any{out}, false, false, true
+		}
 		ok = guard(x, port, func() { out = must(e.db.Await(c, e.duty, e.pk, e.subcomm(e.last))) })
 		return []any{out}, false, false, ok
 	}
